@@ -152,6 +152,7 @@ def main():
             st = res["stats"]
             m = merged[res["check"]]
             m["evaluations"] += st["evaluations"]
+            m["worker_s"] = round(m.get("worker_s", 0.0) + res.get("wall_s", 0.0), 1)
             m["nontrivial"].update(st["nontrivial"])
             for k, n in st["labels"].items():
                 m["labels"][k] = m["labels"].get(k, 0) + n
@@ -224,7 +225,7 @@ def main():
     print(f"{prop} {tier}: {total} cases, {nt} distinct non-trivial, {len(violations)} violation(s), "
           f"{len(inconclusive)} inconclusive, {wall:.1f}s")
     for name, m in merged.items():
-        print(f"  {name}: {m['evaluations']} cases, {len(m['nontrivial'])} non-trivial")
+        print(f"  {name}: {m['evaluations']} cases, {len(m['nontrivial'])} non-trivial, {m.get('worker_s', 0.0)} worker-s")
     if inconclusive:
         for i in inconclusive[:10]:
             print("INCONCLUSIVE " + i[:3000])
